@@ -93,6 +93,10 @@ def absorb(chk, res, on_ob):
             continue
         chk.count('programs')
         if 'build_error' in rec:
+            if 'ambiguous' in rec.get('features', []) and 'LogicError' in rec['build_error']:
+                # an ambiguous topology the library refuses: nothing to analyse (a tree that does build it is analysed like any other topology)
+                chk.ob('unsat', 'ambiguous topology %s is refused (%s)' % (rec['plan'], rec['build_error'][:80]), distinct=('refused', rec['plan'], rec.get('order_tag')))
+                continue
             chk.harness_errors.append('topology %s does not build: %s' % (rec['plan'], rec['build_error']))
             continue
         if 'untranslatable' in rec:
